@@ -136,7 +136,13 @@ func H_C14_lines(v *V) {
 		lines = append(lines, faultText)
 		faultLine = len(lines)
 		if fault == 6 {
-			lines = append(lines, "q = 1")
+			// the unknown section holds an entry, only a comment, or nothing
+			switch v.Choice(3) {
+			case 0:
+				lines = append(lines, "q = 1")
+			case 1:
+				lines = append(lines, "; nothing here")
+			}
 		}
 	}
 	lines = append(lines, "[Grp]")
